@@ -2,6 +2,16 @@ from . import F, N
 
 K = "kd_buf_parser.py"
 MUTANTS = [
+    F("C03", "block filler computed as 8 - len % 8 (8 instead of 0 for aligned payloads)", K,
+      "    'data' / Select(Aligned(8, Prefixed(Int64ul, GreedyBytes)), Prefixed(Int64ul, GreedyBytes)),\n",
+      "    'data' / Prefixed(Int64ul, GreedyBytes),\n    Padding(lambda ctx: 8 - len(ctx.data) % 8),\n", "R8"),
+    F("C03", "blocks aligned to 4 bytes", K,
+      "Select(Aligned(8, Prefixed(Int64ul, GreedyBytes)), Prefixed(Int64ul, GreedyBytes))",
+      "Select(Aligned(4, Prefixed(Int64ul, GreedyBytes)), Prefixed(Int64ul, GreedyBytes))", None),
+    N("C03", "block filler written as an explicit padding function", K,
+      "    'data' / Select(Aligned(8, Prefixed(Int64ul, GreedyBytes)), Prefixed(Int64ul, GreedyBytes)),\n",
+      "    'data' / Prefixed(Int64ul, GreedyBytes),\n    Optional(Padding(lambda ctx: -len(ctx.data) % 8)),\n",
+      more=[(K, "CString, Prefixed, GreedyBytes, Aligned, Bytes, Select", "CString, Prefixed, GreedyBytes, Aligned, Bytes, Select, Optional")]),
     F("C03", "tag scanner: prefix counter that restarts at 0 or 1 (misses overlapping false starts)", K,
       """    found = reader.read(len(data))
     while found != data:
